@@ -255,6 +255,26 @@ def _patched_unescape(cp):
     return un
 
 
+def _joinable_unescape(cp):
+    """unescape_string recompiled from its CURRENT source with the one C call that rejects proxies - "".join(...) -
+    replaced by the equivalent symx.sym_join(...) (a mechanical, harness-side rewrite; nothing else changes).
+    Returns None when the source has no such call to rewrite."""
+    import __future__
+    import inspect
+
+    un = _patched_unescape(cp)
+    try:
+        src = inspect.getsource(un.unescape_string)
+    except (OSError, TypeError):
+        return None
+    if '"".join(' not in src:
+        return None
+    ns = un.__dict__
+    ns["_vf_join"] = symx.sym_join
+    exec(compile(src.replace('"".join(', "_vf_join("), un.__file__, "exec", flags=__future__.annotations.compiler_flag), ns)  # noqa: S102
+    return un
+
+
 def esc_spec(kind: str, payload) -> tuple:
     """Specified decoding of an escape payload (tuple of code point terms/ints): ("OK", value-term) | ("ERR",)."""
     e = symx.engine()
@@ -403,6 +423,113 @@ def _replay_esc(spec):
 
 
 replay_ext.HANDLERS["c12_esc"] = _replay_esc
+
+
+SEQ_ESCAPES = [("\\n", 0x0A), ("\\r", 0x0D), ("\\t", 0x09), ("\\\\", 0x5C), ('\\"', 0x22), ("\\'", 0x27), ("\\0", 0x00), ("\\x41", 0x41), ("\\u{41}", 0x41)]
+
+
+def _seq_call(un, Tok, SynErr, value):
+    tok = Tok.Token(Tok.TokenKind.STRING, "", 0, "")
+    try:
+        return ("OK", un.unescape_string(value, tok, quote='"'))
+    except SynErr:
+        return ("ERR",)
+    except (symx.Unsupported, symx.Inconclusive):
+        raise
+    except Exception as ex:  # noqa: BLE001
+        if "SymStr" in str(ex) or "SymInt" in str(ex):
+            raise symx.Unsupported(f"proxy leak: {type(ex).__name__}: {ex}") from ex
+        return ("EXC", type(ex).__name__)
+
+
+@core.task_fn("c12_seq")
+def run_seq(task: dict) -> dict:
+    """unescape_string on SEQUENCES: escape, an arbitrary plain character, escape - decoding is left to right, so the
+    result is the concatenation of what each piece denotes (an escaped backslash followed by 'n' is not a line feed)."""
+    res = core.new_result(task["unit"])
+    cp = pestenv.load_copy()
+    un = _joinable_unescape(cp)
+    if un is None:
+        res["inconclusive"].append((task["unit"], "unescape_string has no \"\".join(...) to rewrite: sequences of escapes cannot be run on proxies"))
+        return res
+    Tok = cp.modules["pest.grammar.tokens"]
+    SynErr = cp.pest.PestGrammarSyntaxError
+    for name, parts, want_cps in task["shapes"]:
+        eng = Engine()
+        holder = {}
+
+        def fn(e, parts=parts, want_cps=want_cps):
+            value = SymStr.template(e, parts)
+            syms = [c for c in value.ch if not isinstance(c, int)]
+            for c in syms:
+                e.assume(c != 0x5C)  # a plain character: not a backslash,
+                e.assume(c != 0x22)  # not the closing quote
+            holder["value"] = value
+            got = _seq_call(un, Tok, SynErr, value)
+            fails = []
+            if got[0] != "OK":
+                fails.append(("sequence-rejected", f"valid literal: unescape_string gave {got}"))
+            else:
+                it = iter(syms)
+                want = SymStr(tuple(next(it) if w is None else w for w in want_cps))
+                r = got[1]
+                if len(r) != len(want) or not famcheck._same_chars(r, want):
+                    fails.append(("sequence-denotation", "the decoded text is not the concatenation of what its pieces denote"))
+            return got[0], fails
+
+        try:
+            for pr in eng.explore(fn, max_paths=2000):
+                if pr.status != "ok":
+                    res["inconclusive"].append((name, f"{pr.status}: {pr.reason}"))
+                    continue
+                w = holder["value"].concrete(pr.model)
+                cfails = _seq_replay({"value": w})
+                if bool(cfails) != bool(pr.value[1]):
+                    res["harness_errors"].append(f"C12 sequence path/concrete mismatch {w!r}: {pr.value} vs {cfails}")
+                    continue
+                res["validated"] += 1
+                res["accepting"] += 1
+                if pr.value[1]:
+                    res["failures"].append(
+                        {"key": name, "kind": ",".join(f[0] for f in pr.value[1]), "detail": " | ".join(f[1] for f in pr.value[1])[:300], "witness": w, "pc": "true", "vars": [],
+                         "status": "new", "finding": None, "replay": {"type": "c12_seq", "module": "vf.props.c12", "value": w}}
+                    )
+        except symx.Inconclusive as e:
+            res["inconclusive"].append((name, str(e)))
+        core.absorb_engine(res, eng)
+    return res
+
+
+def _seq_reference(value: str) -> str:
+    """Left-to-right decoding of a literal made of the SEQ_ESCAPES forms and plain characters."""
+    out, i = [], 0
+    while i < len(value):
+        if value[i] != "\\":
+            out.append(value[i])
+            i += 1
+            continue
+        for esc, cpt in SEQ_ESCAPES:
+            if value.startswith(esc, i):
+                out.append(chr(cpt))
+                i += len(esc)
+                break
+        else:
+            raise ValueError(value)
+    return "".join(out)
+
+
+def _seq_replay(spec):
+    cp = pestenv.load_copy()
+    un = cp.modules["pest.grammar.unescape"]
+    Tok = cp.modules["pest.grammar.tokens"]
+    got = _seq_call(un, Tok, cp.pest.PestGrammarSyntaxError, spec["value"])
+    want = _seq_reference(spec["value"])
+    if got[0] != "OK":
+        return [("sequence-rejected", str(got))]
+    return [] if got[1] == want else [("sequence-denotation", f"decoded {got[1]!r}, denotes {want!r}")]
+
+
+replay_ext.HANDLERS["c12_seq"] = _seq_replay
 
 
 @core.task_fn("c12_e2e")
@@ -588,6 +715,15 @@ def main(tier: str, seed: int, args) -> int:
     tasks.append({"fn": "c12_esc", "unit": "esc/x2", "kind": "x", "k": 2})
     for k in range(1, (5 if tier == "quick" else 7) + 1):
         tasks.append({"fn": "c12_esc", "unit": f"esc/u{k}", "kind": "u", "k": k})
+    shapes = []
+    for e1, c1 in SEQ_ESCAPES:
+        shapes.append((f"{e1}+c", [e1, 1], [c1, None]))
+        shapes.append((f"c+{e1}", [1, e1], [None, c1]))
+        for e2, c2 in SEQ_ESCAPES:
+            shapes.append((f"{e1}+c+{e2}", [e1, 1, e2], [c1, None, c2]))
+            shapes.append((f"{e1}+{e2}+c", [e1, e2, 1], [c1, c2, None]))
+    for i in range(0, len(shapes), 30):
+        tasks.append({"fn": "c12_seq", "unit": f"esc/seq{i // 30:02d}", "shapes": shapes[i : i + 30]})
     tasks.append({"fn": "c12_e2e", "unit": "esc/e2e", "regions": {k[len("esc/e2e") + 1 :]: v for k, v in regions.items() if k.startswith("esc/e2e|")}})
     if args.only:
         tasks = [t for t in tasks if args.only in t["unit"]]
